@@ -5,6 +5,7 @@ import (
 	"encoding/json"
 	"fmt"
 	"io"
+	"net/http"
 	"os"
 	"path/filepath"
 	"runtime"
@@ -36,9 +37,10 @@ type Cfg struct {
 	MaxWrites int      `json:"max_writes"`
 	MaxSnaps  int      `json:"max_snaps"`
 	MaxGrow   int      `json:"max_grow"`
-	SysRmOnly bool     `json:"sys_rm_only"` // Rm only where the system itself would delete (target and its parent not user-retained)
-	AllReads  bool     `json:"all_reads"`   // final oracle reads every (offset,len) pair
-	InitOps   []string `json:"init_ops"`    // executed before the path (not part of it)
+	SysRmOnly bool     `json:"sys_rm_only"`        // Rm only where the system itself would delete (target and its parent not user-retained)
+	AllReads  bool     `json:"all_reads"`          // final oracle reads every (offset,len) pair
+	InitOps   []string `json:"init_ops"`           // executed before the path (not part of it)
+	ViaREST   bool     `json:"via_rest,omitempty"` // management events go through the real clients and the replica/rest router (restapi.go)
 }
 
 func (c *Cfg) has(list []string, s string) bool {
@@ -126,19 +128,21 @@ func Cleanup() {
 }
 
 type inst struct {
-	cfg       *Cfg
-	dir       string
-	srv       *replica.Server
-	m         *Model
-	obs       []string
-	viol      []kernel.Violation
-	cnt       map[string]int
-	trace     bool
-	notes     []string
-	inDeep    bool
-	hold      *replica.VerifHold // non-nil while the hole-punching goroutine is stalled (held-hole schedules)
-	sinceHold string
-	hazard    string // set when the path ran into a history class that is a recorded known finding
+	cfg        *Cfg
+	dir        string
+	srv        *replica.Server
+	m          *Model
+	obs        []string
+	viol       []kernel.Violation
+	cnt        map[string]int
+	trace      bool
+	notes      []string
+	inDeep     bool
+	hold       *replica.VerifHold // non-nil while the hole-punching goroutine is stalled (held-hole schedules)
+	sinceHold  string
+	hazard     string // set when the path ran into a history class that is a recorded known finding
+	rest       *restAPI
+	restRouter http.Handler
 }
 
 func (x *inst) violate(oracle, sig, detail string) {
@@ -206,6 +210,10 @@ func Exec(req *kernel.Request) (resp *kernel.Response) {
 	h := sha1.Sum([]byte(strings.Join(x.obs, "\n")))
 	resp.Obs = fmt.Sprintf("%x", h[:8])
 	resp.Violations = x.viol
+	if restReqs > 0 {
+		x.cnt["rest_requests"] += restReqs
+		restReqs = 0
+	}
 	resp.Counters = x.cnt
 	resp.Note = x.notes
 	return
@@ -418,7 +426,7 @@ func (x *inst) apply(ev string) {
 	case "SnapU", "SnapA":
 		user := f[0] == "SnapU"
 		name := fmt.Sprintf("s%d", m.NSnap+1)
-		err := x.guard(ev, func() error { return x.srv.Snapshot(name, user, created) })
+		err := x.guard(ev, func() error { return x.api().Snapshot(name, user, created) })
 		x.observe("%s -> %v", ev, err != nil)
 		if !m.Open {
 			if err == nil {
@@ -458,7 +466,7 @@ func (x *inst) apply(ev string) {
 					return sparse.FoldFile(filepath.Join(x.dir, op.Source), filepath.Join(x.dir, op.Target), foldStub{})
 				})
 			case replica.OpRemove:
-				err = x.guard(ev, func() error { return x.srv.RemoveDiffDisk(op.Source) })
+				err = x.guard(ev, func() error { return x.api().RemoveDiffDisk(op.Source) })
 			}
 			if err != nil {
 				x.violate("remove-failed", "remove-failed:"+op.Action, fmt.Sprintf("%s (%s) op %+v: %v", ev, s.Name, op, err))
@@ -493,7 +501,7 @@ func (x *inst) apply(ev string) {
 		// third step: unlink the coalesced snapshot
 		i := atoi(f[1])
 		s := m.Chain[i]
-		err := x.guard(ev, func() error { return x.srv.RemoveDiffDisk(disk(s.Name)) })
+		err := x.guard(ev, func() error { return x.api().RemoveDiffDisk(disk(s.Name)) })
 		x.observe("%s -> %v", ev, err != nil)
 		if err != nil {
 			x.violate("remove-failed", "remove-failed:remove", fmt.Sprintf("%s (%s): %v", ev, s.Name, err))
@@ -503,7 +511,7 @@ func (x *inst) apply(ev string) {
 	case "Revert":
 		i := atoi(f[1])
 		s := m.Chain[i]
-		err := x.guard(ev, func() error { return x.srv.Revert(disk(s.Name), created) })
+		err := x.guard(ev, func() error { return x.api().Revert(disk(s.Name), created) })
 		x.observe("%s -> %v", ev, err != nil)
 		if err != nil {
 			x.violate("revert-failed", "revert-failed", fmt.Sprintf("%s (%s): %v", ev, s.Name, err))
@@ -514,7 +522,7 @@ func (x *inst) apply(ev string) {
 	case "ReopenP", "ReopenN":
 		x.reopen(f[0] == "ReopenP", ev)
 	case "Reload":
-		err := x.guard(ev, func() error { return x.srv.Reload() })
+		err := x.guard(ev, func() error { return x.api().Reload() })
 		x.observe("%s -> %v", ev, err != nil)
 		if err != nil {
 			x.violate("reload-failed", "reload-failed", err.Error())
@@ -523,7 +531,7 @@ func (x *inst) apply(ev string) {
 		// the tail of a rebuild: reload without preload, then merge the preloaded map into the live one
 		err := x.guard(ev, func() error {
 			x.srv.SetPreload(false)
-			e := x.srv.Reload()
+			e := x.api().Reload()
 			x.srv.SetPreload(true)
 			if e != nil {
 				return e
@@ -542,7 +550,7 @@ func (x *inst) apply(ev string) {
 		armed := false
 		err := x.guard(ev, func() error {
 			x.srv.SetPreload(false)
-			e := x.srv.Reload()
+			e := x.api().Reload()
 			x.srv.SetPreload(true)
 			if e != nil {
 				return fmt.Errorf("reload: %v", e)
@@ -576,7 +584,7 @@ func (x *inst) apply(ev string) {
 		}
 		err := x.guard(ev, func() error {
 			x.srv.SetPreload(false)
-			e := x.srv.Reload()
+			e := x.api().Reload()
 			x.srv.SetPreload(true)
 			if e != nil {
 				return e
@@ -608,7 +616,7 @@ func (x *inst) apply(ev string) {
 		}
 	case "Grow":
 		nb := len(m.Live)/SPB + atoi(f[1])
-		err := x.guard(ev, func() error { return x.srv.Resize(strconv.Itoa(nb * Block)) })
+		err := x.guard(ev, func() error { return x.api().Resize(strconv.Itoa(nb * Block)) })
 		x.observe("%s -> %v", ev, err != nil)
 		if err != nil {
 			x.violate("grow-failed", "grow-failed", err.Error())
@@ -622,21 +630,21 @@ func (x *inst) apply(ev string) {
 }
 
 func (x *inst) prepare(ev, name string) (ops []replica.PrepareRemoveAction, err error) {
-	err = x.guard(ev, func() error { var e error; ops, e = x.srv.PrepareRemoveDisk(name); return e })
+	err = x.guard(ev, func() error { var e error; ops, e = x.api().PrepareRemoveDisk(name); return e })
 	return
 }
 
 func (x *inst) reopen(preload bool, ev string) {
 	err := x.guard(ev, func() error {
-		if e := x.srv.Close(); e != nil {
+		if e := x.api().Close(); e != nil {
 			return fmt.Errorf("close: %v", e)
 		}
 		x.srv.SetPreload(preload)
-		if e := x.srv.Open(); e != nil {
+		if e := x.api().Open(); e != nil {
 			return fmt.Errorf("open: %v", e)
 		}
 		x.srv.SetPreload(true)
-		return x.srv.SetReplicaMode(x.modeForReopen())
+		return x.api().SetReplicaMode(x.modeForReopen())
 	})
 	x.observe("%s -> %v", ev, err != nil)
 	if err != nil {
